@@ -130,6 +130,42 @@ let namemap_arg = function
   | JList l -> List.map (function JList [JStr a; JStr b] -> (a, b) | _ -> failwith "namemap") l
   | _ -> failwith "namemap"
 
+(* ---- ms events / commands on the wire ---- *)
+let nat_arg v = num_nat (num_arg v)
+let bool_arg = function JBool b -> b | _ -> failwith "bool arg"
+let ev_of_jv = function
+  | JList [JStr "G"; t; a] -> EvG (num_arg t, num_arg a)
+  | JList [JStr "g"; t; i; a] -> Evg (num_arg t, nat_arg i, num_arg a)
+  | JList [JStr "N"; t; x] -> EvN (num_arg t, num_arg x)
+  | JList [JStr "n"; t; i; x; b] -> Evn (num_arg t, nat_arg i, num_arg x, bool_arg b)
+  | JList [JStr "M"; t; x] -> EvM (num_arg t, num_arg x)
+  | JList [JStr "m"; t; i; j; x] -> Evm (num_arg t, nat_arg i, nat_arg j, num_arg x)
+  | JList [JStr "ma"; t; n; JList rows; b] ->
+      Evma (num_arg t, nat_arg n,
+            List.map (function JList r -> List.map num_arg r | _ -> failwith "ma row") rows, bool_arg b)
+  | JList [JStr "s"; t; i; p] -> Evs (num_arg t, nat_arg i, num_arg p)
+  | JList [JStr "j"; t; i; j] -> Evj (num_arg t, nat_arg i, nat_arg j)
+  | _ -> failwith "event"
+let jnat n = JNum (nat_num n)
+let jv_of_ev = function
+  | EvG (t, a) -> JList [JStr "G"; JNum t; JNum a]
+  | Evg (t, i, a) -> JList [JStr "g"; JNum t; jnat i; JNum a]
+  | EvN (t, x) -> JList [JStr "N"; JNum t; JNum x]
+  | Evn (t, i, x, b) -> JList [JStr "n"; JNum t; jnat i; JNum x; JBool b]
+  | EvM (t, x) -> JList [JStr "M"; JNum t; JNum x]
+  | Evm (t, i, j, x) -> JList [JStr "m"; JNum t; jnat i; jnat j; JNum x]
+  | Evma (t, n, m, b) -> JList [JStr "ma"; JNum t; jnat n; jlist (jlist jnum) m; JBool b]
+  | Evs (t, i, p) -> JList [JStr "s"; JNum t; jnat i; JNum p]
+  | Evj (t, i, j) -> JList [JStr "j"; JNum t; jnat i; jnat j]
+let dget k = function JDict kv -> (try List.assoc k kv with Not_found -> failwith ("missing " ^ k)) | _ -> failwith "dict"
+let list_arg = function JList l -> l | _ -> failwith "list arg"
+let cmd_of_jv v =
+  { c_npop = nat_arg (dget "npop" v); c_structure = bool_arg (dget "structure" v);
+    c_irate = num_arg (dget "irate" v);
+    c_init = List.map ev_of_jv (list_arg (dget "init" v));
+    c_events = List.map ev_of_jv (list_arg (dget "events" v)) }
+let jcodes l = jlist (fun ((s, i), j) -> JList [JStr s; jnat i; jnat j]) l
+
 let dispatch (op : string) (args : jv list) : jv =
   match op, args with
   | "size_at", [d; JList ts] ->
@@ -171,6 +207,17 @@ let dispatch (op : string) (args : jv list) : jv =
   | "dump_pre", [j; s; g] ->
       of_res (fun x -> x) (dump_pre ops (j = JBool true) (s = JBool true) (graph_arg g))
   | "validb", [g] -> jbool (validb ops (graph_arg g))
+  | "to_ms", [g; n0] ->
+      of_res (fun (n, evs) -> JList [jnat n; jlist jv_of_ev evs]) (to_ms_events ops (graph_arg g) (num_arg n0))
+  | "sem_check", [g; n0; c; JList pm; JList times; JList bounds; rel; abst] ->
+      (* sizes/rates at each time, lineage movements at each boundary *)
+      let g = graph_arg g and n0 = num_arg n0 and c = cmd_of_jv c and pm = List.map nat_arg pm in
+      let rel = num_arg rel and abst = num_arg abst in
+      let close a b = isclose ops a b rel abst in
+      let same a b = isclose ops a b (fl 1e-9) (fl 0.) in
+      JList [
+        jlist (fun t -> JList [t; of_res jcodes (check_at ops close g n0 c pm (num_arg t))]) times;
+        jlist (fun b -> JList [b; of_res jcodes (check_moves_at ops close same g n0 c pm (num_arg b))]) bounds ]
   | "close", [a; b; r; t] ->
       jbool (close_graph ops (num_arg r) (num_arg t) (graph_arg a) (graph_arg b))
   | _ -> failwith ("unknown op " ^ op)
